@@ -279,6 +279,19 @@ def compare_quiescent(ctx, path, wm, hist_desc, equal_len):
                           message="index does not enumerate 1..N")
             except Exception as exc:
                 ctx.check("dclab.index", False, wit(exc=repr(exc)), message=f"index: {exc!r}")
+        if equal_len:
+            # what the client read first from the re-opened file, and in which form, varies
+            # (DESIGN 7.5): conversions to other dtypes, single events, slices, iteration,
+            # reductions, computed features that read stored ones
+            from vmon.gen.touch import client_touch
+            trng = np.random.default_rng([ctx.seed, ctx.cases_run, len(wm.feats),
+                                          ctx.counters.get("readbacks", 0)])
+            ctx.count("readbacks")
+            if trng.random() < 0.6:
+                extra = [c for c in ("time", "index") if trng.random() < 0.5]
+                client_touch(trng, ds, extra + [f for f in wm.feats
+                                                if f != "trace" or wm.feats[f]],
+                             ctx, p=0.5)
         for f, m in wm.feats.items():
             if f == "trace" and not m:
                 continue
